@@ -78,14 +78,13 @@ Proof. exact counters_match_applied_proof. Qed.
 Print Assumptions counters_match_applied.
 
 (* OWN WRITES ON A SNAPSHOT, equality with the spec (the strongest true statement).  For EVERY
-   program without ROLLBACK TO SAVEPOINT in which no INSERT/UPSERT looks up a key its own
-   transaction deleted, and every interleaving: every observation (statement outcome, rows of every
+   program without ROLLBACK TO SAVEPOINT and every interleaving: every observation (statement outcome, rows of every
    SELECT, counters, committed tables after every step) equals that of the abstract spec in which a
    transaction works on a private copy of each table taken when it first touches the table, reads
    its own changes, and COMMIT installs its changes atomically or is rejected as a whole (the
    spec's COMMIT verdicts are the engine's MVCC verdicts). *)
 Theorem statement_sees_own_writes_on_fixed_snapshot_partial : forall steps,
-  no_rbto steps = true -> quirk_free minit steps = true ->
+  no_rbto steps = true ->
   mtrace minit steps = strace false sinit (with_verdicts minit steps).
 Proof. exact (fun steps => refinement_proof steps minit sinit Rst_init). Qed.
 Print Assumptions statement_sees_own_writes_on_fixed_snapshot_partial.
@@ -95,30 +94,18 @@ Print Assumptions statement_sees_own_writes_on_fixed_snapshot_partial.
    read-only transaction then sees the new row of tc but not the new row of ta. *)
 Theorem statement_sees_own_writes_on_fixed_snapshot_refuted :
   exists steps,
-    no_rbto steps = true /\ quirk_free minit steps = true /\
+    no_rbto steps = true /\
     map (fun e => o_rows (snd e)) (skipn 6 (mtrace minit steps)) = [[]; [(2, 20)]]%Z /\
     map (fun e => o_rows (snd e)) (skipn 6 (strace true sinit (with_verdicts minit steps))) = [[]; []] /\
     mtrace minit steps <> strace true sinit (with_verdicts minit steps).
 Proof. exact fixed_snapshot_refuted_proof. Qed.
 Print Assumptions statement_sees_own_writes_on_fixed_snapshot_refuted.
 
-(* ... and REFUTED for a statement after the transaction's own DELETE of the same key: with row 1
-   committed, DELETE 1; SELECT (returns nothing); INSERT 1 fails with "key already exists". *)
-Theorem statement_sees_own_delete_refuted :
-  exists steps,
-    no_rbto steps = true /\
-    map (fun e => (o_rows (snd e), o_err (snd e))) (skipn 3 (mtrace minit steps)) = [([], false); ([], true)] /\
-    map (fun e => (o_rows (snd e), o_err (snd e))) (skipn 3 (strace false sinit (with_verdicts minit steps))) = [([], false); ([], false)] /\
-    mtrace minit steps <> strace false sinit (with_verdicts minit steps).
-Proof. exact own_delete_refuted_proof. Qed.
-Print Assumptions statement_sees_own_delete_refuted.
-
 (* ROLLBACK TO SAVEPOINT undoes exactly the statements after the savepoint: REFUTED.
    INSERT 1; SAVEPOINT s; INSERT 2; ROLLBACK TO SAVEPOINT s; COMMIT commits both rows (the spec:
    row 1 only). *)
 Theorem rollback_to_savepoint_undoes_suffix_refuted :
   exists steps,
-    quirk_free minit steps = true /\
     t_0 (vis (m_db (mrun minit steps))) = [(1, 10); (2, 20)]%Z /\
     t_0 (svis (s_db (srun false sinit (with_verdicts minit steps)))) = [(1, 10)]%Z /\
     mtrace minit steps <> strace false sinit (with_verdicts minit steps).
@@ -129,7 +116,7 @@ Print Assumptions rollback_to_savepoint_undoes_suffix_refuted.
    without ROLLBACK TO SAVEPOINT behave exactly as the spec (in which ROLLBACK TO would restore the
    copy taken at the savepoint): same statement as above, seen from the savepoint side. *)
 Theorem rollback_to_savepoint_undoes_suffix_partial : forall steps,
-  no_rbto steps = true -> quirk_free minit steps = true ->
+  no_rbto steps = true ->
   mtrace minit steps = strace false sinit (with_verdicts minit steps).
 Proof. exact (fun steps => refinement_proof steps minit sinit Rst_init). Qed.
 Print Assumptions rollback_to_savepoint_undoes_suffix_partial.
